@@ -28,12 +28,12 @@ def generate(prop, seed):
     rng = random.Random(seed)
     kind = 'sliding' if rng.random() < 0.8 else 'task'
     nthreads = rng.choice([1, 2, 2, 3, 3])
-    cap = rng.choice([1, 1, 2, 2, 3])
+    cap = rng.choice([1, 1, 2, 2, 3, 4, 5])
     tags = ['a', 'b', 'c'][:rng.choice([1, 1, 2, 3])]
     progs = []
     for _ in range(nthreads):
         p = []
-        for _ in range(rng.randint(3, 8)):
+        for _ in range(rng.randint(3, 8) + (cap if cap > 3 else 0)):
             r = rng.random()
             if r < 0.35:
                 p.append(['acq', rng.choice(tags), True])
